@@ -7,11 +7,16 @@ is the writer's `emitted` counter (query and SHOW response writers); (c) every R
 (no constant substituted on the normal path).
 (b) the two copies of the scalar-to-Arrow cell builders (shared/response/arrow.rs and engine/core/read/flow/batch.rs, one function per Arrow type) accept the same ScalarValue variants — a variant one copy
 converts and the other sends to append_null shows up as null in Arrow on one code path while JSON prints the value.
+(d) SHOW: the JSON and the Arrow path of ShowResponseWriter classify a received batch as stored frame / delta by the same test (batch_count < materialized_frame_count, which switches the
+duplicate-id filter on) and count it in the same place: in each receive loop every iteration that classifies a batch also increments batch_count before the next batch is received - whatever
+OFFSET / LIMIT / de-duplication leave of it (a counter advanced only when something is written lags behind on one encoding and lets duplicate ids through there).
+(e) the three Renderer implementations turn a cell into JSON text through ScalarValue::to_json in stream_batch / stream_row alike (to_json maps a Utf8 holding a large u64 or JSON text to a number / array; the
+derived Serialize prints the string): one encoding using another conversion prints different values for the same rows.
 Noted, not armed: the inline row-selection builders in build_record_batch accept fewer variants than the functions (no Utf8 parsing); a u64 above i64::MAX is kept as a string and becomes null in an Int64 Arrow column.
 Does NOT decide numeric equality of decoded cells, batch-size independence, or byte-level agreement of the three encodings.
 """
-FLOOR = 6
-REQUIRED = ["C20.a", "C20.b", "C20.c", "C20/C03.e1", "C20/C03.e2"]
+FLOOR = 8
+REQUIRED = ["C20.a", "C20.b", "C20.c", "C20.d", "C20.e", "C20/C03.e1", "C20/C03.e2"]
 
 
 def run(ctx):
@@ -101,3 +106,79 @@ def run(ctx):
     ctx.run("C20.c", "K11 SIB", "Renderer::render implementations", "every encoding prints the response's own status code", c)
 
     ctx.note("build_record_batch's inline row-selection builders accept fewer variants than the builder functions; u64 > i64::MAX is kept as Utf8 and becomes null in an Int64 column (reproduced, value level, not armed)")
+
+    def d(inst):
+        bad = []
+        shapes = {}
+        for fn in ("write_json", "write_arrow"):
+            b = F.fn("ShowResponseWriter::" + fn)
+            rc = [c_ for c_ in b.find_calls(r"QueryBatchStream::recv$")]
+            if len(rc) != 1:
+                raise AnchorMissing("stream.recv() in %s (%d)" % (fn, len(rc)))
+            # loop header = the switch on the awaited Option (Some edge starts an iteration)
+            some = variant_edge(b, rc[0], "Some")
+            hdr = rc[0].bb
+            # classification: a comparison reading .batch_count and .materialized_frame_count
+            cls = []
+            incs = []
+            for i in sorted(b.live_blocks()):
+                for st in b.blocks[i]["s"]:
+                    v = st.get("v")
+                    if not v:
+                        continue
+                    if v.get("r") == "bin" and v.get("op") in ("Lt", "Le", "Gt", "Ge"):
+                        fa, fb = fmt_leaves(b.origins(v["a"])), fmt_leaves(b.origins(v["b"]))
+                        if "batch_count" in fa + fb and "materialized_frame_count" in fa + fb:
+                            o = v["op"] if "batch_count" in fa else {"Lt": "Gt", "Gt": "Lt", "Le": "Ge", "Ge": "Le"}[v["op"]]
+                            cls.append((i, o))
+                    if st.get("a") and st["a"][-1:] == [".batch_count"] and v.get("r") == "use":
+                        L = b.origins(v["o"])
+                        if any(l[0] == "binop" and l[1].startswith("Add") for l in L):
+                            incs.append(i)
+            if len(cls) != 1:
+                raise AnchorMissing("the stored-frame test batch_count < materialized_frame_count in %s (%d)" % (fn, len(cls)))
+            inst.sites.append("%s: classify %s @ %s, increments @ %s" % (fn, cls[0][1], sp(b, cls[0][0]), [sp(b, x) for x in incs]))
+            shapes[fn] = cls[0][1]
+            if cls[0][1] != "Lt":
+                bad.append(("classification:%s" % fn, "%s classifies a batch as stored frame by %s(batch_count, materialized_frame_count) instead of Lt" % (fn, cls[0][1]), None))
+            if not incs:
+                bad.append(("batch-not-counted:%s" % fn, "%s classifies received batches by batch_count but does not advance it in its receive loop" % fn, None))
+                continue
+            # every path from the classification back to the next recv passes an increment
+            seen = b.reach(cls[0][0], cut_blocks=incs)
+            if hdr in seen and cls[0][0] not in incs:
+                bad.append(("batch-not-counted:%s" % fn, "%s can receive the next batch without having counted the current one (the counter is advanced only on some paths): the stored-frame / delta classification then differs from the other encoding" % fn, None))
+            # and at most one increment per iteration
+            for x in incs:
+                after = b.reach(x, cut_blocks=[hdr])
+                if any(y in after and y != x for y in incs):
+                    bad.append(("batch-counted-twice:%s" % fn, "%s can count one received batch twice" % fn, None))
+        return bad
+    ctx.run("C20.d", "K11 SIB + K9 LOOP", "ShowResponseWriter::write_json / write_arrow", "both SHOW encodings classify and count received batches alike", d)
+
+    def e_(inst):
+        bad = []
+        sites = 0
+        for ty in ("JsonRenderer", "UnixRenderer", "ArrowRenderer"):
+            for m in ("stream_batch", "stream_row"):
+                try:
+                    b = F.method(ty, "Renderer", m)
+                except AnchorMissing:
+                    continue
+                k = b.key
+                fam = [b] + [F.fn_exact(x) for x in F.find("^" + re.escape(k) + r"::\{closure")]
+                # does this method print cells as text at all? (the Arrow renderer encodes through the Arrow builders, C20.b)
+                ser = [c_ for B in fam for c_ in B.calls if not c_.cleanup and re.search(r"sonic_rs::(to_writer|to_string|to_vec)|serde_json::(to_writer|to_string|to_vec)", c_.nname)]
+                if not ser:
+                    continue
+                sites += 1
+                tj = [c_ for B in fam for c_ in B.calls if not c_.cleanup and re.search(r"ScalarValue::to_json$", c_.nname)]
+                # the serialised frame must not contain ScalarValue cells directly
+                direct = [c_ for c_ in ser if "ScalarValue" in (c_.ga or "")]
+                inst.sites.append("%s::%s: to_json x%d, serialises %s" % (ty, m, len(tj), sorted({(c_.ga or "")[:60] for c_ in ser})))
+                if not tj or direct:
+                    bad.append(("cell-conversion:%s::%s" % (ty, m), "%s::%s prints cells without ScalarValue::to_json (the derived Serialize keeps a numeric / JSON-looking Utf8 a string, to_json does not): this encoding shows other values than its siblings" % (ty, m), None))
+        if sites < 3:
+            raise AnchorMissing("text-printing stream_batch / stream_row implementations (found %d, confirmed 4)" % sites)
+        return bad
+    ctx.run("C20.e", "K11 SIB", "Renderer::stream_batch / stream_row", "every text encoding converts cells through ScalarValue::to_json", e_)
